@@ -7,6 +7,7 @@ import (
 	"context"
 	"fmt"
 	"net"
+	"net/netip"
 	"strings"
 	"sync"
 	"testing"
@@ -54,7 +55,7 @@ func (c vfC15Case) ID() string {
 }
 
 var vfC15Scenarios = []string{
-	"genuine", "challenge-dropped", "response-late", "response-from-third-address", "forged-response-wrong-cookie",
+	"genuine", "challenge-dropped", "response-late", "response-from-third-address", "response-from-sibling-port", "forged-response-wrong-cookie",
 	"forged-response-guess-before-challenge", "replayed-record-from-new-address", "stale-record-from-new-address",
 	"garbage-from-new-address", "two-candidates-one-answers", "genuine-then-back", "observed-writes-during-validation",
 	"altered-cid", "many-small-records-from-new-address", "response-late-with-keepalives", "stale-epoch-record-from-new-address", "first-record-of-epoch-late-from-new-address",
@@ -510,6 +511,42 @@ func vfC15Run(t *testing.T, res *vfResult, c vfC15Case) {
 			n.Deliver(w.obsAddr, d.Data, vfAddr(vfAddrC))
 			synctest.Wait()
 			w.check("after response delivered from a third address")
+		}
+		time.Sleep(2 * time.Second)
+		synctest.Wait()
+		w.check("after settle")
+	case "response-from-sibling-port":
+		// as above, but the third address shares its IP with the challenged one (another port of the same host, a NAT
+		// rebinding): addresses are real UDP addresses here, as a socket reports them
+		udp := func(a string) net.Addr {
+			ap, err := netip.ParseAddrPort(a)
+			if err != nil {
+				return vfAddr(a)
+			}
+
+			return net.UDPAddrFromAddrPort(ap)
+		}
+		const sibling = "10.0.9.9:1001"
+		n.Alias(sibling, w.mov.EP)
+		write(w.mov, "fromB")
+		if d := take(); d != nil {
+			w.mu.Lock()
+			w.recv[vfAddrB] += len(d.Data)
+			w.fresh[vfAddrB] = true
+			d.Delivered++
+			w.mu.Unlock()
+			n.Deliver(w.obsAddr, d.Data, udp(vfAddrB))
+			synctest.Wait()
+			w.check("after delivery from B")
+		}
+		for _, d := range pending() {
+			w.mu.Lock()
+			w.recv[sibling] += len(d.Data)
+			d.Delivered++
+			w.mu.Unlock()
+			n.Deliver(w.obsAddr, d.Data, udp(sibling))
+			synctest.Wait()
+			w.check("after the response was delivered from another port of the challenged host")
 		}
 		time.Sleep(2 * time.Second)
 		synctest.Wait()
